@@ -130,6 +130,60 @@ def rule_lookahead(ctx, F):
             ctx.gate("L1", g, acc, [("a row is looked up only for an existing state", pat, False)], accept_desc="positioning the iterator")
 
 
+WIDE_TABLE_FIELDS = {"small_parse_table_map": "offsets into ts_small_parse_table (uint32_t: the table of a large language exceeds 65535 cells)"}
+
+
+_BITS = {"uint8_t": 8, "int8_t": 8, "char": 8, "uint16_t": 16, "int16_t": 16, "TSSymbol": 16, "TSStateId": 16, "TSFieldId": 16, "uint32_t": 32, "int32_t": 32,
+         "unsigned": 32, "unsigned int": 32, "int": 32, "uint64_t": 64, "int64_t": 64, "size_t": 64}
+
+
+def type_bits(t):
+    if not isinstance(t, str):
+        return None
+    t = t.replace("const", "").replace("volatile", "").strip()
+    return _BITS.get(t)
+
+
+def rule_widths(ctx, F):
+    """L2: the two readers of the small parse table (ts_language_lookup for the parser, ts_language_lookaheads
+    for the iterator) take the state's offset at its full width — no narrowing conversion of a value read from
+    the offset map."""
+    n = 0
+    for fn in F.fn_list:
+        if not fn.file.startswith("lib/src"):
+            continue
+        for pt, e in fn.points():
+            for x in own_walk(e):
+                reads = [y for y in walk(x.get("e") or {}) if y.get("k") == "mem" and y.get("f") in WIDE_TABLE_FIELDS] if x.get("k") == "cast" else []
+                if x.get("k") == "cast" and reads and x.get("tobits") and x.get("frombits") and x["tobits"] < x["frombits"]:
+                    ctx.bad("L2", "%s:narrows-%s" % (fn.name, reads[0]["f"]), "%s narrows a value read from %s to %d bits at %s (%s): states stored beyond that offset are decoded from the wrong cells" % (
+                        fn.name, reads[0]["f"], x["tobits"], fn.loc(pt), WIDE_TABLE_FIELDS[reads[0]["f"]]), {"site": fn.loc(pt)})
+            # implicit conversions in initialisers / assignments: compare declared widths
+            tgt = None
+            if e.get("k") == "decl" and e.get("init") is not None:
+                tgt, val = e.get("t") if isinstance(e.get("t"), str) else "", e["init"]
+            for x in own_walk(e):
+                if x.get("k") == "assign" and strip(x["l"]).get("k") == "ref":
+                    tgt, val = strip(x["l"]).get("t") if isinstance(strip(x["l"]).get("t"), str) else "", x["r"]
+            if tgt is not None:
+                v = strip(val)
+                reads = [y for y in walk(val) if y.get("k") == "mem" and y.get("f") in WIDE_TABLE_FIELDS]
+                wt, wv = type_bits(tgt), type_bits(v.get("t") or "")
+                if reads and v.get("k") == "idx" and wt and wv and wt < wv:
+                    ctx.bad("L2", "%s:narrows-%s" % (fn.name, reads[0]["f"]), "%s stores a value read from %s (%d bits) in a %d-bit variable at %s (%s): states stored beyond that offset are decoded from the wrong cells" % (
+                        fn.name, reads[0]["f"], wv, wt, fn.loc(pt), WIDE_TABLE_FIELDS[reads[0]["f"]]), {"site": fn.loc(pt)})
+            for x in walk(e):
+                if x.get("k") == "mem" and x.get("f") in WIDE_TABLE_FIELDS:
+                    n += 1
+    ctx.floor("reads of the small-table offset map", n, 2)
+    for name in ("ts_language_lookup", "ts_language_lookaheads"):
+        fn = F.fns.get(name)
+        if fn:
+            ok = not any(k.startswith("%s:narrows-" % name) for k in [v["key"] for v in ctx.violations])
+            if ok:
+                ctx.ok("L2", "%s:offset-at-full-width" % name, "%s reads the state's table offset without narrowing" % name)
+
+
 def rule_node_types(ctx):
     """M1–M4 (rustc MIR of tree-sitter-generate, node_types.rs): when several rules contribute to one
     node kind, or several alternatives to one child slot, the published claims only ever get weaker —
@@ -260,6 +314,7 @@ def run(ctx):
         ctx.analysed["c_functions_" + cfg] = len(F.fn_list)
         rule_names(ctx, F)
         rule_lookahead(ctx, F)
+        rule_widths(ctx, F)
     rule_node_types(ctx)
     rule_effective_name(ctx)
     return ctx.finish(
